@@ -51,6 +51,8 @@ class Ctx:
     def floor(self, rule, n):
         """instance floor confirmed by hand: fewer sites examined means the rule lost its anchor"""
         have = self.counts.get(rule, 0)
+        if any((not o['ok']) and o['rule'] == rule for o in self.obl):
+            return          # the rule already reports a violation; a floor only guards against passing vacuously
         if have < n:
             raise AnalysisBroken('rule %s examined %d site(s), floor is %d — anchor lost' % (rule, have, n))
 
